@@ -18,6 +18,15 @@ def gen_cases(ctx):
         n = rng.randrange(1, 7)
         gates = rand_circuit(rng, n, rng.randrange(0, 30 if not ctx.thorough() else 120), us)
         cases.append({"op": "export", "mode": "text", "n": n, "gates": gates})
+    # registers wider than what the gates touch (idle qubits at the top, at the bottom, in the middle): the register is the circuit width
+    for n in (2, 3, 5, 8, 12):
+        for used in ([0], [n - 1], [0, n // 2], list(range(0, n - 1)), list(range(1, n))):
+            gates = []
+            for _ in range(rng.randrange(1, 5)):
+                t = rng.choice(used); rest = [q for q in used if q != t]
+                gates.append({"g": "op", "kind": rng.choice(["H", "X", "S", "Z"]), "params": [], "ts": [t], "cs": rng.sample(rest, rng.randrange(0, min(2, len(rest)) + 1))})
+            if rng.random() < 0.5: gates.append({"g": "meas", "basis": rng.choice(["C", "X", "Y"]), "qs": rng.sample(used, rng.randrange(1, len(used) + 1))})
+            cases.append({"op": "export", "mode": "text", "n": n, "gates": gates})
     # several measurement groups, all bases, interleaved with gates: numbering and sizes
     for _ in range(20):
         n = rng.randrange(2, 6)
